@@ -104,6 +104,7 @@ def run_model(cases: List[Case], fuel: int = 3000, sem: bool = False, jobs: int 
             if not cur:
                 cur.append(f"FUEL {fuel}")
             cur.extend(c.g.proto_lines())
+            cur.append(f"W {c.g.gid}")
             last = c.g
         cfg = c.cfg
         cur.append(f"C {c.cid} {cfg.root} {cfg.a} {cfg.m} {cfg.eol} {cfg.lazy} {cfg.unwind} "
@@ -124,6 +125,9 @@ def run_model(cases: List[Case], fuel: int = 3000, sem: bool = False, jobs: int 
             if l.startswith('SEM '):
                 parts = l.split(' ', 2)
                 sems[parts[1]] = parts[2]
+            elif l.startswith('W '):
+                parts = l.split()
+                sems['W:' + parts[1]] = parts[2]
         traces.update(parse_traces(out))
     return traces, sems
 
